@@ -243,13 +243,13 @@ func checkC02(w *World, r *Recorder) propInfo {
 	r.Floor("C02-V1", 1)
 	r.Floor("C02-V2", 1)
 	r.Floor("C02-V3", 1)
-	r.Floor("C02-V4", 4)
+	r.Floor("C02-V4", 1)
 	r.Floor("C02-V5", 1)
 	r.Floor("C02-V6", 1)
 	return info
 }
 
-var reEpoch = regexp.MustCompile(`@\d+$`)
+var reEpoch = regexp.MustCompile(`@\d+(~\d+)?$`)
 
 // c20Payload: in UnmarshalCOSE the claims decoder's argument is the Payload of
 // the message that the tagged UnmarshalCBOR was invoked on with the caller's
@@ -411,7 +411,10 @@ func checkC03(w *World, r *Recorder) propInfo {
 				r.Refute("C03-S3", pkey, w.InstrPos(sg[0].Instr), "a token can be returned although Sign returned an error")
 			case len(mc) != 1 || mc[0].Args[0].name() != msg || p.Rets[0].name() != resultElem(mc[0], 0).name():
 				r.Refute("C03-S2", pkey, w.InstrPos(p.Ret), "the token returned is not the tagged MarshalCBOR of the signed message")
-			case p.St.NilOf(resultElem(mc[0], 1)) != -1:
+			case p.St.NilOf(resultElem(mc[0], 1)) != -1 && !(nl == 0 && p.Rets[ei].name() == resultElem(mc[0], 1).name()):
+				// (both results of MarshalCBOR handed on unchanged is fine: go-cose
+				// returns nil bytes with every error — model fact, audited in the
+				// thorough tier by auditCoseMarshal)
 				r.Refute("C03-S3", pkey, w.InstrPos(mc[0].Instr), "a token can be returned although MarshalCBOR returned an error")
 			default:
 				r.Prove("C03-S2", pkey, w.InstrPos(sg[0].Instr), "alg→protected header, Sign(empty external, signer), tagged marshal of the same message", true)
@@ -450,10 +453,11 @@ func checkC03(w *World, r *Recorder) propInfo {
 	}
 	remapRule(r, "C19-Y4", "C03-S4")
 	auditCoseSign(w, r, "C03-audit")
-	r.Floor("C03-S4", 2)
+	auditCoseMarshal(w, r, "C03-audit")
+	r.Floor("C03-S4", 1)
 	r.Floor("C03-S1", 2)
 	r.Floor("C03-S2", 2)
-	r.Floor("C03-S3", 6)
+	r.Floor("C03-S3", 2)
 	return info
 }
 
@@ -596,10 +600,10 @@ func checkC19(w *World, r *Recorder) propInfo {
 	auditCoseSign(w, r, "C19-audit")
 	auditCoseVerify(w, r, "C19-audit")
 	auditCoseUnmarshal(w, r, "C19-audit")
-	r.Floor("C19-Y1", 8)
+	r.Floor("C19-Y1", 3)
 	r.Floor("C19-Y2", 3)
-	r.Floor("C19-Y3", 6)
-	r.Floor("C19-Y4", 4)
+	r.Floor("C19-Y3", 2)
+	r.Floor("C19-Y4", 2)
 	r.Floor("C19-Y5", 1)
 	return info
 }
@@ -759,8 +763,8 @@ func checkC20(w *World, r *Recorder) propInfo {
 		}
 	}
 	auditCoseUnmarshal(w, r, "C20-audit")
-	r.Floor("C20-U1", 3)
-	r.Floor("C20-U2", 4)
+	r.Floor("C20-U1", 1)
+	r.Floor("C20-U2", 3)
 	r.Floor("C20-U3", 1)
 	return info
 }
